@@ -90,8 +90,8 @@ func enumerate(thorough bool) (cells []*Cell, nominal int, skipped skipCount) {
 		{"reader", ""}, {"writer", ""}, {"map", ""}, {"filter", ""}, {"flatmap", ""}, {"fold", ""},
 		{"combiner", "table"}, {"combiner", "buffer"}, {"combiner", "merge"}, {"repart", ""}, {"scan", ""},
 	}
-	modes := []string{"err", "tempbase", "tempnet", "panic", "oorhi", "oorneg"}
-	perss := []string{"always", "once"}
+	modes := []string{"err", "tempbase", "tempnet", "tempsentinel", "panic", "oorhi", "oorneg"}
+	perss := []string{"always", "once", "twice"}
 	type position struct {
 		name          string
 		shard, target int
@@ -143,7 +143,10 @@ func enumerate(thorough bool) (cells []*Cell, nominal int, skipped skipCount) {
 								case (mode == "oorhi" || mode == "oorneg") && st.site != "repart":
 									skipped["an out-of-range partition can only be produced by a Repartition function"]++
 									continue
-								case (mode == "err" || mode == "tempbase" || mode == "tempnet") && !canErr[st.site]:
+								case pers == "twice" && !isTemp(mode):
+									skipped["a failure that is fatal the first time cannot happen twice in a run (same as once)"]++
+									continue
+								case (mode == "err" || isTemp(mode)) && !canErr[st.site]:
 									skipped["the function type of this call site has no error result: it can only panic"]++
 									continue
 								case ps.eof && !hasEOF[st.site]:
@@ -407,7 +410,9 @@ type verdict struct {
 	what  string
 }
 
-func isTemp(mode string) bool { return mode == "tempbase" || mode == "tempnet" }
+func isTemp(mode string) bool {
+	return mode == "tempbase" || mode == "tempnet" || mode == "tempsentinel"
+}
 
 // msgRequired: "carrying the user's message for reader and writer errors and for every panic".
 func msgRequired(s *Spec) bool {
